@@ -212,6 +212,9 @@ def make_project(seed, nfiles, dup=False):
         decls[hp].append("pub fn build_progress_%d(done: u32, total: u32) -> %s {\n    todo!()\n}\n" % (seed % 7, tn))
         decls[hp].append("pub fn report_progress_%d(app: &AppHandle) {\n    app.emit(\"built-progress\", build_progress_%d(0, 10)).ok();\n}\n" % (seed % 7, seed % 7))
         meta["events"].append("built-progress")
+    # a helper that emits two events one after the other (a formatter may put both statements on one line)
+    decls[rng.pick(paths)].append("pub fn announce_pair(app: &AppHandle) {\n    app.emit(\"pair-first\", 1u8).ok();\n    app.emit(\"pair-second\", true).ok();\n}\n")
+    meta["events"] += ["pair-first", "pair-second"]
     if layout == 2 and nfiles >= 2:
         # events from a file and from the directory of the same stem (`jobs.rs`, `jobs/worker.rs`: path order and string
         # order of the two differ)
